@@ -12,6 +12,10 @@ CONSTANTS
   MaxMut = 1
   MaxClose = 1
   MaxKs = 0
+  BurstSizes = {1, 16, 32, 33, 40}
+  UploadRounds = {8, 40}
+  UploadSizes = {1, 16385}
+  MaxBurst = 1
   Paths = FALSE
 INIT Init
 NEXT Next
